@@ -84,7 +84,7 @@ static std::string spec_json(const Session& s)
     for (auto& l : s.lines) ls.push_back(l);
     mc::JObj o;
     o.raw("script", mc::jlist(ls, true)).s("root_fen", s.root_fen).n("stop_at", s.spec.stop_at).n("stop_at_first", s.spec.stop_at_first)
-        .n("clock_step_ms", s.spec.clock_step_ms).n("depth_limit", s.depth_limit).b("finite", s.finite).s("label", s.label);
+        .n("clock_step_ms", s.spec.clock_step_ms).n("horizon", s.spec.horizon).n("depth_limit", s.depth_limit).b("finite", s.finite).s("label", s.label);
     if (!s.searchmoves.empty()) o.raw("searchmoves", mc::jlist(s.searchmoves, true));
     if (s.spec.poison.active)
         o.raw("poison", mc::JObj().u("key", s.spec.poison.key).n("score", s.spec.poison.score).n("depth", s.spec.poison.depth)
@@ -255,6 +255,11 @@ static const SeedPos SEEDS[] = {
     {"kbk_draw", "8/8/8/3k4/8/3K4/3B4/8 w - - 0 1", 0},
     {"krk", "8/8/8/3k4/8/8/3K4/R7 w - - 0 1", 0},
     {"two_moves", "k7/8/1K6/8/8/8/8/7B b - - 0 1", 0},
+    {"kbkn_capture_draws", "4n3/4B3/5k2/8/8/8/3K4/8 b - - 0 1", 0},
+    {"knkb_capture_draws", "8/3k4/8/8/8/5K2/4b3/4N3 w - - 0 1", 0},
+    {"krkr", "8/8/8/3k4/8/8/3K4/R6r w - - 0 1", 0},
+    {"kqkq", "8/8/8/3k4/8/8/3K4/Q6q w - - 0 1", 0},
+    {"rule50_edge", "8/8/8/3k4/8/3K4/3P4/R7 w - - 98 70", 0},
     {"prop_c17", "r3kbnr/2p3p1/bp2P3/p3pp2/7p/2P4Q/PP1KPPPP/R4BNR b q - 0 1", 2},
     {"startpos", "rnbqkbnr/pppppppp/8/8/8/8/PPPPPPPP/RNBQKBNR w KQkq - 0 1", 2},
     {"kiwipete", "r3k2r/p1ppqpb1/bn2pnp1/3PN3/1p2P3/2N2Q1p/PPPBBPPP/R3K2R w KQkq - 0 1", 2},
@@ -427,6 +432,10 @@ static void list_history()
         {"8/8/8/3k4/8/3K4/3P4/8 w - - 0 1", {"d3e3", "d5e5", "d2d4"}},
         {"r3k2r/8/8/8/8/8/8/R3K2R w KQkq - 0 1", {"e1g1", "e8c8"}},
         {"7k/8/5K2/6Q1/8/8/8/8 w - - 0 1", {"g5g6"}},
+        // shuffles: the searched positions have occurred before, and lines of the search repeat them
+        {"8/8/8/3k4/8/8/3K4/R6r w - - 0 1", {"a1a2", "h1h2", "a2a1", "h2h1", "a1a2", "h1h2", "a2a1"}},
+        {"8/8/8/3k4/8/8/3K4/Q6q w - - 0 1", {"d2e2", "d5e5", "e2d2", "e5d5", "d2e2"}},
+        {"4n3/4B3/5k2/8/8/8/3K4/8 b - - 0 1", {"f6f7", "d2d3", "f7f6", "d3d2"}},
     };
     for (auto& g : games)
     {
@@ -1027,6 +1036,7 @@ int main(int argc, char** argv)
             else if (l.rfind("#stop_at ", 0) == 0) s.spec.stop_at = atoll(l.c_str() + 9);
             else if (l.rfind("#stop_at_first ", 0) == 0) s.spec.stop_at_first = atoll(l.c_str() + 15);
             else if (l.rfind("#clock ", 0) == 0) s.spec.clock_step_ms = atoll(l.c_str() + 7);
+            else if (l.rfind("#horizon ", 0) == 0) s.spec.horizon = atoll(l.c_str() + 9);
             else if (l.rfind("#depth_limit ", 0) == 0) s.depth_limit = atoi(l.c_str() + 13);
             else if (l.rfind("#finite ", 0) == 0) s.finite = atoi(l.c_str() + 8);
             else if (l.rfind("#label ", 0) == 0) s.label = l.substr(7);
@@ -1049,7 +1059,6 @@ int main(int argc, char** argv)
             else if (!l.empty() && l[0] != '#') s.lines.push_back(l);
         }
         fclose(f);
-        s.spec.horizon = 30000000;
         sess::Outcome o = run_and_check(s);
         fprintf(stderr, "---- engine output ----\n%s\n", o.output.c_str());
         mc::Subspace sub;
